@@ -288,3 +288,6 @@ pub(crate) fn mk_handle(index: usize) -> SpanHandle {
 pub(crate) fn records(q: &SpanQueue) -> &RawSpans {
     &q.span_queue
 }
+pub(crate) fn mk_queue(raws: RawSpans, capacity: usize, next_parent_id: Option<SpanId>) -> SpanQueue {
+    SpanQueue { span_queue: raws, capacity, next_parent_id }
+}
